@@ -18,6 +18,7 @@ struct Ctx {
 
 #[derive(Clone, Hash)]
 struct Model {
+    advances: u8,
     /// per token: balances of U1, U2, V and the service
     bal: [[i128; 4]; 2],
     paid: [i128; 2],
@@ -41,6 +42,7 @@ enum Act {
     Add { token: usize, spender: usize, amt: Amt, auth: bool },
     Collect { token: usize, amt: Amt, by: usize },
     Refund { token: usize, amt: Amt, by: usize },
+    Advance(u32),
 }
 
 struct C14 {
@@ -87,12 +89,15 @@ impl Scenario for C14 {
         }
         (
             Ctx { w, gas, tokens: vec![asset, native], who },
-            Model { bal: [[3, 2, 0, 0]; 2], paid: [0; 2], added: [0; 2], collected: [0; 2], refunded: [0; 2] },
+            Model { advances: 0, bal: [[3, 2, 0, 0]; 2], paid: [0; 2], added: [0; 2], collected: [0; 2], refunded: [0; 2] },
         )
     }
 
-    fn actions(&self, _ctx: &Ctx, _m: &Model) -> Vec<Act> {
+    fn actions(&self, _ctx: &Ctx, m: &Model) -> Vec<Act> {
         let mut v = vec![];
+        if m.advances < 1 {
+            v.push(Act::Advance(20));
+        }
         for token in 0..2 {
             for spender in 0..2 {
                 for amt in AMTS {
@@ -125,6 +130,13 @@ impl Scenario for C14 {
         let h0 = w.state_hash();
         let payload = b"payload-bytes".to_vec();
         match a {
+            Act::Advance(n) => {
+                out.kind = "advance";
+                out.accepted = true;
+                w.set_seq(w.seq() + n);
+                w.set_time(w.now() + 5 * *n as u64);
+                m.advances += 1;
+            }
             Act::Pay { token, spender, amt, auth } | Act::Add { token, spender, amt, auth } => {
                 let pay = matches!(a, Act::Pay { .. });
                 out.kind = if pay { "pay_gas" } else { "add_gas" };
